@@ -1,11 +1,683 @@
 /-
-  C01 — placeholder index until the umbrella development is merged: the totality theorems
-  live with each model (Props/C06 HOO/HCT `loop_total`, C08 SOO/DOO/StoSOO, C12 SequOOL,
-  C09/C10 GPO/POO, C11 Zooming `init_Cover/receive_Cover`).
+  Property C01 — "For every algorithm, partition and domain, driving the documented loop (pull,
+  then receive_reward with any finite reward, for t = 1..T with T no larger than the declared
+  budget) never raises, never hangs, and every pull returns a list of d finite numbers lying
+  inside the user-supplied box.  The point returned by get_last_point after the loop is likewise
+  a d-vector inside the box."
+
+  Setting.  The models of `PyXABModel/Model/*.lean` return the id `v` of the pulled cell; the
+  Python code returns that cell's representative point `Box.cpoint (box v)` (`TT.ptOf P v`).
+  Coordinates live in an arbitrary linearly ordered field `α`, rewards / scores in the types the
+  reused totality theorems ask for; every numeric formula of the code is a parameter.
+  Definitions: `Spec/TotalSpec.lean`; lemmas: `Lemmas/TT_*.lean`.
+
+  * `TT.BoxInv root P` — EVERY cell of the arena (leaf or internal) is a valid sub-box of `root`
+    of the same dimension; `TT.DomInv k root P` — `BoxInv` + "the partition class is `k`";
+    `TT.PointOK root P v` — `v` is a cell of `P` and `Box.cpoint (box v)` is a `d`-vector inside
+    `root`; `TT.Keeps P P'` — cells and boxes of `P` are kept in `P'` (so a point handed out
+    earlier is still the point of that cell: `keeps_point`).
+  * Draws.  Which cell is split by which recorded draw depends on the run, so the NumPy
+    guarantee `DrawOK kind (box of the split cell) draw` is a hypothesis on the run:
+    `TT.<Algo>.GoodDraws` (tree bandits, SequOOL: the first draw offered in a round fits the one
+    cell that round may split; SOO / DOO / StoSOO: the i-th expansion event of the instrumented
+    `pullT` of `Spec/SweepSpec.lean` fits the i-th draw offered to that `pull`; Zooming: the
+    existing `ZM.GoodRun`).  For the deterministic classes (Binary, DimensionBinary, Kary) these
+    hypotheses follow from the well-formedness `DrawOKLen` already assumed by the totality
+    theorems (`…_det` corollaries) — no extra hypothesis at all.
+  * "Never raises / never hangs": the existing totality theorems (C06 `HOO.loop_total`,
+    `HCT.loop_total`; C08 `SOO/DOO/StoSOO.loop_total`; C12 `run_total`; C11 `round_Cover`;
+    C10 `POO_total`; C09 `GPO_total`) are cited, with their hypotheses restated (SOO, StoSOO:
+    number of rounds ≤ depth cap; StoSOO: `time ≤ n`, `k ≥ 1`; DOO: `delta` never raises).
+  * A run over an arbitrary input list covers "every state": every prefix of the inputs is
+    itself an input list (`runRounds` is defined by recursion on the inputs).
+
+  1. Backbone: `node_box_subset_root`, `cpoint_in_domain`, `grown_mapSt`, `boxInv_init`,
+     `boxInv_payload`, `boxInv_modifySt`, `boxInv_makeChildren`, `keeps_point`,
+     `pointOK_of_valid`, `drawOK_of_len`.
+  2. `HOO_points_in_domain`, `HCT_points_in_domain` (both variance flags), `SOO_…`, `DOO_…`,
+     `StoSOO_…`, `SequOOL_…`, `Zooming_points_in_domain`; for each the corollary `…_det` for the
+     deterministic classes, the per-step theorems `…_pull_in_domain` / `…_receive_in_domain`, and
+     `…_lastPoint_in_domain` for the algorithms whose model has a recommendation function
+     (SOO, DOO, StoSOO, SequOOL).  T-HOO / HCT / VHCT / Zooming have no separate recommendation
+     in the models (the Python `get_last_point` of these classes is `pull`).
+     In a round in which no cell is split the offered draws are not consumed; `GoodDraws` still
+     asks the first one to fit the pulled cell, which is harmless (a fitting draw always exists
+     for a valid box, e.g. the midpoint).
+  3. `POO_points_in_domain`, `POO_lastPoint_in_domain`, `POO_total_in_domain`,
+     `GPO_points_in_domain`, `GPO_total_in_domain`.
+  4. The recorded exceptions: `POO_start_failure`, `GPO_degenerate`, `GPO_lastPoint_no_score`,
+     `POO_lastPoint_no_score`, `SequOOL_lastPoint_before_any_round`, `SOO_pull_outOfFuel`,
+     `StoSOO_pull_budget_exhausted`.
+  5. Non-vacuity examples over `ℚ` (all algorithms; `RandomBinaryPartition` for T-HOO) and
+     `HOO_bad_draw_counterexample`: without the hypothesis on the draws `BoxInv` fails.
 -/
-import PyXABProofs.Props.C06
-import PyXABProofs.Props.C08
-import PyXABProofs.Props.C09
-import PyXABProofs.Props.C10
-import PyXABProofs.Props.C11
-import PyXABProofs.Props.C12
+import PyXABProofs.Lemmas.TT_TB
+import PyXABProofs.Lemmas.TT_SW
+import PyXABProofs.Lemmas.TT_SQ
+import PyXABProofs.Lemmas.TT_ZM
+import PyXABProofs.Lemmas.TT_Meta
+import PyXABProofs.Props.C07
+import PyXABProofs.Lemmas.TT_Example
+
+set_option linter.unusedSectionVars false
+set_option linter.unusedVariables false
+
+namespace PyXAB
+namespace C01
+open _root_.PyXAB.Tree TBA TT
+
+/-! ## 1. Geometry backbone -/
+section backbone
+variable {α σ : Type} [Field α] [LinearOrder α] [IsStrictOrderedRing α]
+
+/-- **node_box_subset_root**: in a tree grown from a `Valid` root box by `make_children` with
+NumPy-conformant draws, EVERY cell — not only the leaves — is a valid sub-box of the root box and
+has its dimension. -/
+theorem node_box_subset_root {k : Kind} {root : Box α} {s0 : σ} {P : Part α σ}
+    (hroot : Box.Valid root) (hG : ZM.Grown k root s0 P) (i : Nat) (nd : Node α σ)
+    (hi : P.nodes[i]? = some nd) :
+    Box.Subset nd.box root ∧ Box.Valid nd.box ∧ nd.box.length = root.length :=
+  (grown_domInv hroot hG).box i nd hi
+
+/-- **cpoint_in_domain**: hence the representative point of every cell is a `d`-vector inside
+the root box. -/
+theorem cpoint_in_domain {k : Kind} {root : Box α} {s0 : σ} {P : Part α σ}
+    (hroot : Box.Valid root) (hG : ZM.Grown k root s0 P) (i : Nat) (nd : Node α σ)
+    (hi : P.nodes[i]? = some nd) :
+    Box.Mem root (Box.cpoint nd.box) ∧ (Box.cpoint nd.box).length = root.length :=
+  (grown_domInv hroot hG).box.cpoint hi
+
+/-- **grown_mapSt**: `Grown` fixes the payloads (`s0` everywhere), but its geometric content
+survives every payload-only update `PRel ρ` (all the `modifySt` / `forListed` / `backward` /
+`refreshTau` passes of the algorithms). -/
+theorem grown_mapSt {k : Kind} {root : Box α} {s0 : σ} {P P' : Part α σ}
+    {ρ : Nat → Node α σ → Node α σ → Prop} (hroot : Box.Valid root) (hG : ZM.Grown k root s0 P)
+    (h : PRel ρ P P') : DomInv k root P' :=
+  DomInv.of_prel h (grown_domInv hroot hG)
+
+/-- `Partition.__init__` on a valid domain. -/
+theorem boxInv_init (k : Kind) {root : Box α} (hv : Box.Valid root) (s0 : σ) :
+    DomInv k root (Part.init k root s0) := DomInv.init hv s0
+
+/-- (a) payload-only updates keep the invariant … -/
+theorem boxInv_payload {k : Kind} {root : Box α} {P P' : Part α σ}
+    {ρ : Nat → Node α σ → Node α σ → Prop} (h : PRel ρ P P') (hD : DomInv k root P) :
+    DomInv k root P' ∧ Keeps P P' := ⟨DomInv.of_prel h hD, Keeps.of_prel h⟩
+
+/-- … in particular `modifySt`. -/
+theorem boxInv_modifySt {k : Kind} {root : Box α} {P : Part α σ} (i : Nat) (f : σ → σ)
+    (hD : DomInv k root P) : DomInv k root (P.modifySt i f) ∧ Keeps P (P.modifySt i f) :=
+  boxInv_payload (PRel_modifySt P i f) hD
+
+/-- (b) `make_children` on ANY cell (leaf or not, any `newlayer` flag) with a draw which satisfies
+the NumPy guarantees for the box of that cell keeps the invariant. -/
+theorem boxInv_makeChildren {k : Kind} {root : Box α} {P P' : Part α σ} {s0 : σ} {p : Nat}
+    {nd : Node α σ} {nl : Bool} {d : Draw α} (hD : DomInv k root P) (hp : P.nodes[p]? = some nd)
+    (hd : DrawOK k nd.box d) (h : P.makeChildren s0 p nl d = .ok P') :
+    DomInv k root P' ∧ Keeps P P' :=
+  makeChildren_dom hD hp (fun _ _ => hd) h
+
+/-- A point handed out for the cell `v` is still the point of `v` in every later tree, and it
+stays inside the domain. -/
+theorem keeps_point {root : Box α} {P P' : Part α σ} {v : Nat} (hK : Keeps P P')
+    (h : PointOK root P v) : ptOf P' v = ptOf P v ∧ PointOK root P' v :=
+  ⟨hK.ptOf h.1, h.keeps hK⟩
+
+/-- In a tree satisfying the invariant every valid id names a point of the domain. -/
+theorem pointOK_of_valid {k : Kind} {root : Box α} {P : Part α σ} (hD : DomInv k root P) {v : Nat}
+    (hv : v < P.nodes.length) :
+    v < P.nodes.length ∧ Box.Mem root (ptOf P v) ∧ (ptOf P v).length = root.length :=
+  hD.pointOK hv
+
+/-- For the deterministic partition classes `DrawOKLen` implies the NumPy guarantee. -/
+theorem drawOK_of_len {k : Kind} (hk : Kind.Deterministic k) {root b : Box α} {d : Draw α}
+    (hd : DrawOKLen k root.length d) (hb : Box.Valid b) (hs : Box.Subset b root) : DrawOK k b d :=
+  drawFits_of_det hk hd hb hs
+
+end backbone
+
+/-! ## 2. The algorithms -/
+
+/-! ### T-HOO -/
+section hoo
+variable {α R S : Type} [Field α] [LinearOrder α] [IsStrictOrderedRing α]
+variable [LE S] [DecidableLE S] [Max S] [Min S] [Inhabited S] [Inhabited R]
+
+/-- `pull` from an invariant state never raises and hands out a cell whose point lies in the
+domain (`s1.P = s.P`). -/
+theorem HOO_pull_in_domain (cfg : HOOCfg R S) {k : Kind} {root : Box α} {s : HOO α R S}
+    (hI : HOO.Inv cfg s) (hD : DomInv k root s.P) :
+    ∃ s1 path v, HOO.pull s = .ok (s1, v) ∧ HOO.Ready cfg s1 path v ∧ DomInv k root s1.P ∧
+      PointOK root s1.P v := by
+  obtain ⟨s1, path, v, hp, hR, hP1, _⟩ := HOO.pull_total cfg hI
+  have hD1 : DomInv k root s1.P := hP1 ▸ hD
+  exact ⟨s1, path, v, hp, hR, hD1, hD1.pointOK
+    ((TBA.path_spec hR.isPath).2.1 v (List.mem_of_getLast? hR.lastEq))⟩
+
+/-- `receive_reward` keeps the invariant when the first draw fits the pulled cell. -/
+theorem HOO_receive_in_domain (cfg : HOOCfg R S) {k : Kind} {root : Box α} {s s' : HOO α R S}
+    {path : List Nat} {last : Nat} (hR : HOO.Ready cfg s path last) (hD : DomInv k root s.P) {r : R}
+    {ds ds' : List (Draw α)} (hS : SplitFits k root s.P last ds)
+    (h : HOO.receive cfg s r ds = .ok (s', ds')) : DomInv k root s'.P ∧ Keeps s.P s'.P :=
+  TT.HOO.receive_dom cfg hD (fun path' last' e1 e2 => by
+    rw [hR.stored] at e1; cases e1; rw [hR.lastEq] at e2; cases e2; exact hS) h
+
+/-- **HOO_points_in_domain**: construction followed by any number of rounds never raises
+(`HOO.loop_total`); the final (hence every intermediate) tree satisfies `DomInv`, and every cell
+handed out is a cell of the tree whose point is a `d`-vector inside the domain. -/
+theorem HOO_points_in_domain (cfg : HOOCfg R S) (k : Kind) (domain : Box α)
+    (ds0 : List (Draw α)) (inputs : List (R × List (Draw α))) (hv : Box.Valid domain)
+    (h0 : DrawsOK k domain.length ds0) (hin : InputsOK k domain.length inputs)
+    (hd0 : HeadFits k domain domain ds0)
+    (hG : ∀ s0 ds', HOO.init cfg k domain ds0 = .ok (s0, ds') →
+      TT.HOO.GoodDraws cfg k domain s0 inputs) :
+    ∃ s H, HOO.run cfg k domain ds0 inputs = .ok (s, H) ∧ HOO.Inv cfg s ∧
+      DomInv k domain s.P ∧ H.map (·.2) = inputs.map (·.1) ∧
+      ∀ e ∈ H, PointOK domain s.P e.1 := by
+  obtain ⟨s0, ds', e0, hI0, _, _, _⟩ := HOO.init_total cfg k domain ds0 h0
+  have hD0 := TT.HOO.init_dom cfg hv hd0 e0
+  obtain ⟨s, H, e, hI, hD, _, hH, hpts⟩ :=
+    TT.HOO.runRounds_dom cfg inputs s0 hI0 hD0 hin (hG s0 ds' e0)
+  exact ⟨s, H, by simp only [HOO.run, e0, e], hI, hD, hH, hpts⟩
+
+/-- Deterministic partition classes: no hypothesis beyond those of `HOO.loop_total`. -/
+theorem HOO_points_in_domain_det (cfg : HOOCfg R S) (k : Kind) (hk : Kind.Deterministic k)
+    (domain : Box α) (ds0 : List (Draw α)) (inputs : List (R × List (Draw α)))
+    (hv : Box.Valid domain) (h0 : DrawsOK k domain.length ds0)
+    (hin : InputsOK k domain.length inputs) :
+    ∃ s H, HOO.run cfg k domain ds0 inputs = .ok (s, H) ∧ HOO.Inv cfg s ∧
+      DomInv k domain s.P ∧ H.map (·.2) = inputs.map (·.1) ∧
+      ∀ e ∈ H, PointOK domain s.P e.1 :=
+  HOO_points_in_domain cfg k domain ds0 inputs hv h0 hin (headFits_of_det hk h0.2)
+    (fun s0 _ _ => TT.HOO.goodDraws_of_det cfg hk inputs s0 hin)
+
+end hoo
+
+/-! ### HCT / VHCT (`cfg.variance` arbitrary) -/
+section hct
+variable {α R S : Type} [Field α] [LinearOrder α] [IsStrictOrderedRing α]
+variable [LE S] [DecidableLE S] [Max S] [Min S] [Inhabited S] [Inhabited R]
+
+theorem HCT_pull_in_domain (cfg : HCTCfg R S) {k : Kind} {root : Box α} {s : HCT α R S}
+    (hI : HCT.Inv cfg s) (hD : DomInv k root s.P) :
+    ∃ s1 path v, HCT.pull cfg s = .ok (s1, v) ∧ HCT.Ready cfg s1 path v ∧ DomInv k root s1.P ∧
+      Keeps s.P s1.P ∧ PointOK root s1.P v := by
+  obtain ⟨s1, path, v, hp, hR, hT, _⟩ := TBA.HCT.pull_ok cfg hI
+  have hD1 : DomInv k root s1.P := DomInv.of_prel hT hD
+  exact ⟨s1, path, v, hp, hR, hD1, Keeps.of_prel hT, hD1.pointOK
+    ((TBA.path_spec hR.isPath).2.1 v (List.mem_of_getLast? hR.lastEq))⟩
+
+theorem HCT_receive_in_domain (cfg : HCTCfg R S) {k : Kind} {root : Box α} {s s' : HCT α R S}
+    {path : List Nat} {last : Nat} (hR : HCT.Ready cfg s path last) (hD : DomInv k root s.P) {r : R}
+    {ds ds' : List (Draw α)} (hS : SplitFits k root s.P last ds)
+    (h : HCT.receive cfg s r ds = .ok (s', ds')) : DomInv k root s'.P ∧ Keeps s.P s'.P :=
+  TT.HCT.receive_dom cfg hD (fun path' last' e1 e2 => by
+    rw [hR.stored] at e1; cases e1; rw [hR.lastEq] at e2; cases e2; exact hS) h
+
+/-- **HCT_points_in_domain** (HCT and VHCT). -/
+theorem HCT_points_in_domain (cfg : HCTCfg R S) (k : Kind) (domain : Box α)
+    (ds0 : List (Draw α)) (inputs : List (R × List (Draw α))) (hv : Box.Valid domain)
+    (h0 : DrawsOK k domain.length ds0) (hin : InputsOK k domain.length inputs)
+    (hd0 : HeadFits k domain domain ds0)
+    (hG : ∀ s0 ds', HCT.init cfg k domain ds0 = .ok (s0, ds') →
+      TT.HCT.GoodDraws cfg k domain s0 inputs) :
+    ∃ s H, HCT.run cfg k domain ds0 inputs = .ok (s, H) ∧ HCT.Inv cfg s ∧
+      DomInv k domain s.P ∧ H.map (·.2) = inputs.map (·.1) ∧
+      ∀ e ∈ H, PointOK domain s.P e.1 := by
+  obtain ⟨s0, ds', e0, hI0, _, _, _⟩ := HCT.init_total cfg k domain ds0 h0
+  have hD0 := TT.HCT.init_dom cfg hv hd0 e0
+  obtain ⟨s, H, e, hI, hD, _, hH, hpts⟩ :=
+    TT.HCT.runRounds_dom cfg inputs s0 hI0 hD0 hin (hG s0 ds' e0)
+  exact ⟨s, H, by simp only [HCT.run, e0, e], hI, hD, hH, hpts⟩
+
+theorem HCT_points_in_domain_det (cfg : HCTCfg R S) (k : Kind) (hk : Kind.Deterministic k)
+    (domain : Box α) (ds0 : List (Draw α)) (inputs : List (R × List (Draw α)))
+    (hv : Box.Valid domain) (h0 : DrawsOK k domain.length ds0)
+    (hin : InputsOK k domain.length inputs) :
+    ∃ s H, HCT.run cfg k domain ds0 inputs = .ok (s, H) ∧ HCT.Inv cfg s ∧
+      DomInv k domain s.P ∧ H.map (·.2) = inputs.map (·.1) ∧
+      ∀ e ∈ H, PointOK domain s.P e.1 :=
+  HCT_points_in_domain cfg k domain ds0 inputs hv h0 hin (headFits_of_det hk h0.2)
+    (fun s0 _ _ => TT.HCT.goodDraws_of_det cfg hk inputs s0 hin)
+
+end hct
+
+/-! ### SOO, DOO, StoSOO -/
+section sweep
+open SW
+variable {α R S : Type} [Field α] [LinearOrder α] [IsStrictOrderedRing α]
+variable [LinearOrder S] [Inhabited S] [Inhabited R]
+
+/-- One `pull` of SOO keeps the invariant when the draws of its expansion events fit. -/
+theorem SOO_pull_in_domain (negInf : S) {k : Kind} {root : Box α} {s s' : SOO α S} {t : Nat}
+    {ds ds' : List (Draw α)} {v : Nat} {trs : List (List (Ev α (SwSt S) S))}
+    (hD : DomInv k root s.P) (hE : EvDraws k root ds trs.flatten)
+    (h : SOO.pullT negInf s t ds = .ok (s', ds', v, trs)) :
+    DomInv k root s'.P ∧ Keeps s.P s'.P := TT.SOO.pullT_dom negInf hD hE h
+
+/-- The recommendation of SOO is a cell of the tree, hence a point of the domain. -/
+theorem SOO_lastPoint_in_domain (negInf : S) {k : Kind} {root : Box α} {s : SOO α S}
+    (hD : DomInv k root s.P) {v : Nat} (h : SOO.lastPoint negInf s = .ok v) :
+    PointOK root s.P v := hD.pointOK (TT.SOO.lastPoint_valid negInf h)
+
+/-- **SOO_points_in_domain**: with at most `hmax` rounds (the hypothesis of `SOO.loop_total`;
+beyond the cap `pull` hangs, see `SOO_pull_outOfFuel`) the loop never raises, the tree satisfies
+`DomInv`, every cell handed out and the recommendation are points of the domain. -/
+theorem SOO_points_in_domain (negInf : S) (hbot : ∀ x, negInf ≤ x) (k : Kind) (domain : Box α)
+    (hmax : Nat) (inputs : List (Input α S)) (hv : Box.Valid domain)
+    (hin : SW.InputsOK k domain.length inputs) (hT : inputs.length ≤ hmax)
+    (hG : TT.SOO.GoodDraws negInf k domain (SOO.init negInf k domain hmax) inputs) :
+    ∃ s H, SOO.run negInf k domain hmax inputs = .ok (s, H) ∧ SOO.Inv negInf s ∧
+      DomInv k domain s.P ∧ H.map (·.2) = inputs.map (·.2.2) ∧
+      (∀ e ∈ H, PointOK domain s.P e.1) ∧
+      ∀ v, SOO.lastPoint negInf s = .ok v → PointOK domain s.P v := by
+  obtain ⟨hI0, _, _, h0, hm0, _⟩ := SOO.init_inv (α := α) negInf k domain hmax
+  obtain ⟨s, H, e, hI, hD, _, hH, _, hpts⟩ := TT.SOO.runRounds_dom negInf hbot inputs _ hI0
+    (DomInv.init hv _) hin (by rw [h0, hm0]; omega) hG
+  exact ⟨s, H, e, hI, hD, hH, hpts, fun v hv' => SOO_lastPoint_in_domain negInf hD hv'⟩
+
+theorem SOO_points_in_domain_det (negInf : S) (hbot : ∀ x, negInf ≤ x) (k : Kind)
+    (hk : Kind.Deterministic k) (domain : Box α) (hmax : Nat) (inputs : List (Input α S))
+    (hv : Box.Valid domain) (hin : SW.InputsOK k domain.length inputs)
+    (hT : inputs.length ≤ hmax) :
+    ∃ s H, SOO.run negInf k domain hmax inputs = .ok (s, H) ∧ SOO.Inv negInf s ∧
+      DomInv k domain s.P ∧ H.map (·.2) = inputs.map (·.2.2) ∧
+      (∀ e ∈ H, PointOK domain s.P e.1) ∧
+      ∀ v, SOO.lastPoint negInf s = .ok v → PointOK domain s.P v :=
+  SOO_points_in_domain negInf hbot k domain hmax inputs hv hin hT
+    (TT.SOO.goodDraws_of_det negInf hk inputs _ hin)
+
+theorem DOO_pull_in_domain (cfg : DOOCfg α S) {k : Kind} {root : Box α} {s s' : DOO α S} {t : Nat}
+    {ds ds' : List (Draw α)} {v : Nat} {tr : List (Ev α (SwSt S) S)}
+    (hD : DomInv k root s.P) (hE : EvDraws k root ds tr)
+    (h : DOO.pullT cfg s t ds = .ok (s', ds', v, tr)) :
+    DomInv k root s'.P ∧ Keeps s.P s'.P := TT.DOO.pullT_dom cfg hD hE h
+
+theorem DOO_lastPoint_in_domain (cfg : DOOCfg α S) {k : Kind} {root : Box α} {s : DOO α S}
+    (hD : DomInv k root s.P) {v : Nat} (h : DOO.lastPoint cfg s = .ok v) :
+    PointOK root s.P v := hD.pointOK (TT.DOO.lastPoint_valid cfg h)
+
+/-- **DOO_points_in_domain** (any number of rounds; `delta` never raises: `DeltaOK`). -/
+theorem DOO_points_in_domain (cfg : DOOCfg α S) (hbot : ∀ x, cfg.negInf ≤ x)
+    (hδ : DOO.DeltaOK cfg) (k : Kind) (domain : Box α) (inputs : List (Input α S))
+    (hv : Box.Valid domain) (hin : SW.InputsOK k domain.length inputs)
+    (hG : TT.DOO.GoodDraws cfg k domain (DOO.init cfg k domain) inputs) :
+    ∃ s H, DOO.run cfg k domain inputs = .ok (s, H) ∧ DOO.Inv cfg s ∧
+      DomInv k domain s.P ∧ H.map (·.2) = inputs.map (·.2.2) ∧
+      (∀ e ∈ H, PointOK domain s.P e.1) ∧
+      ∀ v, DOO.lastPoint cfg s = .ok v → PointOK domain s.P v := by
+  obtain ⟨hI0, _⟩ := DOO.init_inv cfg k domain
+  obtain ⟨s, H, e, hI, hD, _, hH, hpts⟩ := TT.DOO.runRounds_dom cfg hbot hδ inputs _ hI0
+    (DomInv.init hv _) hin hG
+  exact ⟨s, H, e, hI, hD, hH, hpts, fun v hv' => DOO_lastPoint_in_domain cfg hD hv'⟩
+
+theorem DOO_points_in_domain_det (cfg : DOOCfg α S) (hbot : ∀ x, cfg.negInf ≤ x)
+    (hδ : DOO.DeltaOK cfg) (k : Kind) (hk : Kind.Deterministic k) (domain : Box α)
+    (inputs : List (Input α S)) (hv : Box.Valid domain)
+    (hin : SW.InputsOK k domain.length inputs) :
+    ∃ s H, DOO.run cfg k domain inputs = .ok (s, H) ∧ DOO.Inv cfg s ∧
+      DomInv k domain s.P ∧ H.map (·.2) = inputs.map (·.2.2) ∧
+      (∀ e ∈ H, PointOK domain s.P e.1) ∧
+      ∀ v, DOO.lastPoint cfg s = .ok v → PointOK domain s.P v :=
+  DOO_points_in_domain cfg hbot hδ k domain inputs hv hin
+    (TT.DOO.goodDraws_of_det cfg hk inputs _ hin)
+
+theorem StoSOO_pull_in_domain (cfg : StoCfg S R) {k : Kind} {root : Box α}
+    {s s' : StoSOO α R S} {t : Nat} {ds ds' : List (Draw α)} {v : Nat}
+    {tr : List (Ev α (TBSt R S) S)} (hD : DomInv k root s.P) (hE : EvDraws k root ds tr)
+    (h : StoSOO.pullT cfg s t ds = .ok (s', ds', v, tr)) :
+    DomInv k root s'.P ∧ Keeps s.P s'.P := TT.StoSOO.pullT_dom cfg hD hE h
+
+theorem StoSOO_lastPoint_in_domain (cfg : StoCfg S R) {k : Kind} {root : Box α}
+    {s : StoSOO α R S} (hD : DomInv k root s.P) {v : Nat} (h : StoSOO.lastPoint cfg s = .ok v) :
+    PointOK root s.P v := hD.pointOK (TT.StoSOO.lastPoint_valid cfg h)
+
+/-- **StoSOO_points_in_domain**: `T ≤ h_max` rounds with `time ≤ n` and `k ≥ 1`
+(`countLT 0`), the hypotheses of `StoSOO.loop_total`. -/
+theorem StoSOO_points_in_domain (cfg : StoCfg S R) (hbot : ∀ x, cfg.negInf ≤ x)
+    (htop : ∀ x, x ≤ cfg.inf) (hk0 : cfg.countLT 0 = true) (k : Kind) (domain : Box α)
+    (inputs : List (Input α R)) (hv : Box.Valid domain)
+    (hin : SW.InputsOK k domain.length inputs) (hn : ∀ x ∈ inputs, x.1 ≤ cfg.n)
+    (hT : inputs.length ≤ cfg.hmax)
+    (hG : TT.StoSOO.GoodDraws cfg k domain (StoSOO.init cfg k domain) inputs) :
+    ∃ s H, StoSOO.run cfg k domain inputs = .ok (s, H) ∧ StoSOO.Inv cfg s ∧
+      DomInv k domain s.P ∧ H.map (·.2) = inputs.map (·.2.2) ∧
+      (∀ e ∈ H, PointOK domain s.P e.1) ∧
+      ∀ v, StoSOO.lastPoint cfg s = .ok v → PointOK domain s.P v := by
+  obtain ⟨hI0, _, _, h0⟩ := StoSOO.init_inv (α := α) cfg k domain
+  obtain ⟨s, H, e, hI, hD, _, hH, hpts⟩ := TT.StoSOO.runRounds_dom cfg hbot htop hk0 inputs _
+    hI0 (DomInv.init hv _) hin hn (by rw [h0]; omega) hG
+  exact ⟨s, H, e, hI, hD, hH, hpts, fun v hv' => StoSOO_lastPoint_in_domain cfg hD hv'⟩
+
+theorem StoSOO_points_in_domain_det (cfg : StoCfg S R) (hbot : ∀ x, cfg.negInf ≤ x)
+    (htop : ∀ x, x ≤ cfg.inf) (hk0 : cfg.countLT 0 = true) (k : Kind)
+    (hk : Kind.Deterministic k) (domain : Box α) (inputs : List (Input α R))
+    (hv : Box.Valid domain) (hin : SW.InputsOK k domain.length inputs)
+    (hn : ∀ x ∈ inputs, x.1 ≤ cfg.n) (hT : inputs.length ≤ cfg.hmax) :
+    ∃ s H, StoSOO.run cfg k domain inputs = .ok (s, H) ∧ StoSOO.Inv cfg s ∧
+      DomInv k domain s.P ∧ H.map (·.2) = inputs.map (·.2.2) ∧
+      (∀ e ∈ H, PointOK domain s.P e.1) ∧
+      ∀ v, StoSOO.lastPoint cfg s = .ok v → PointOK domain s.P v :=
+  StoSOO_points_in_domain cfg hbot htop hk0 k domain inputs hv hin hn hT
+    (TT.StoSOO.goodDraws_of_det cfg hk inputs _ hin)
+
+end sweep
+
+/-! ### SequOOL -/
+section seq
+open SQ
+variable {α S : Type} [Field α] [LinearOrder α] [IsStrictOrderedRing α]
+variable [LinearOrder S] [Inhabited S] {negInf : S}
+
+/-- One `pull` of SequOOL keeps the invariant when — IF the cell being opened is still a leaf —
+the first draw fits its box. -/
+theorem SequOOL_pull_in_domain {k : Kind} {root : Box α} {s s1 : SequOOL α S} {t : Nat}
+    {ds ds1 : List (Draw α)} {v : Nat} (hD : DomInv k root s.P)
+    (hS : ∀ tgt nd, TT.SQ.targetOf negInf s = some tgt → s.P.nodes[tgt]? = some nd →
+      nd.children = none → HeadFits k root nd.box ds)
+    (h : SequOOL.pull negInf s t ds = .ok (s1, ds1, v)) :
+    DomInv k root s1.P ∧ Keeps s.P s1.P := TT.SQ.pull_dom negInf hD hS h
+
+theorem SequOOL_lastPoint_in_domain {k : Kind} {root : Box α} {s : SequOOL α S}
+    (hD : DomInv k root s.P) {v : Nat} (h : SequOOL.lastPoint negInf s = .ok v) :
+    PointOK root s.P v := hD.pointOK (TT.SQ.lastPoint_valid negInf h)
+
+/-- **SequOOL_points_in_domain**: any number of rounds (`C12.run_total`; after the schedule is
+exhausted `pull` returns the root cell, i.e. the centre of the domain). -/
+theorem SequOOL_points_in_domain (hbot : ∀ x : S, negInf ≤ x) (k : Kind) (domain : Box α)
+    (hmax : Nat) (hK : 1 ≤ k.arity domain.length) (inputs : List (S × List (Draw α)))
+    (hv : Box.Valid domain) (hin : SQ.InputsOK k domain.length inputs)
+    (hG : TT.SQ.GoodDraws negInf k domain (SequOOL.init k domain hmax) 1 inputs) :
+    ∃ s H, SQ.run negInf k domain hmax inputs = .ok (s, H) ∧ SQ.Inv negInf s ∧
+      DomInv k domain s.P ∧ H.map (·.2) = inputs.map (·.1) ∧
+      (∀ e ∈ H, PointOK domain s.P e.1) ∧
+      ∀ v, SequOOL.lastPoint negInf s = .ok v → PointOK domain s.P v := by
+  obtain ⟨s, H, e, hI, hD, _, hH, _, hpts⟩ := TT.SQ.runRounds_dom hbot inputs _ 1
+    (SQ.C12.init_Inv k domain hmax hK) (DomInv.init hv _) hin hG
+  exact ⟨s, H, e, hI, hD, hH, hpts, fun v hv' => SequOOL_lastPoint_in_domain hD hv'⟩
+
+theorem SequOOL_points_in_domain_det (hbot : ∀ x : S, negInf ≤ x) (k : Kind)
+    (hk : Kind.Deterministic k) (domain : Box α) (hmax : Nat) (hK : 1 ≤ k.arity domain.length)
+    (inputs : List (S × List (Draw α))) (hv : Box.Valid domain)
+    (hin : SQ.InputsOK k domain.length inputs) :
+    ∃ s H, SQ.run negInf k domain hmax inputs = .ok (s, H) ∧ SQ.Inv negInf s ∧
+      DomInv k domain s.P ∧ H.map (·.2) = inputs.map (·.1) ∧
+      (∀ e ∈ H, PointOK domain s.P e.1) ∧
+      ∀ v, SequOOL.lastPoint negInf s = .ok v → PointOK domain s.P v :=
+  SequOOL_points_in_domain hbot k domain hmax hK inputs hv hin
+    (TT.SQ.goodDraws_of_det negInf hk inputs _ 1 hin)
+
+end seq
+
+/-! ### Zooming (the model's `pull` returns the arm's stored point itself) -/
+section zoom
+open ZM Zooming
+variable {α R S : Type} [Field α] [LinearOrder α] [IsStrictOrderedRing α] [LinearOrder S]
+
+/-- **Zooming_points_in_domain**: in every state of a run whose draws satisfy the NumPy
+guarantees (`ZM.GoodRun`): the invariant `Cover` of C11 and `DomInv` hold; every active arm's
+point is a `d`-vector inside the domain (`cover_arm_in_cell`: the point lies in the arm's leaf
+cell, a sub-box of the domain); `pull` never raises and returns such a point; and `receive` with
+any reward never raises (`C11.receive_Cover`). -/
+theorem Zooming_points_in_domain {cfg : ZoomCfg R S} {k : Kind} {domain : Box α}
+    (hv : Box.Valid domain) {s : Zooming α S} {H : List (Nat × R)}
+    (hG : GoodRun cfg k domain s H) :
+    Cover domain s ∧ DomInv k domain s.P ∧
+    (∀ a ∈ s.arms, Box.Mem domain a.pt ∧ a.pt.length = domain.length) ∧
+    (NegInfLe cfg s → ∃ i a, s.arms[i]? = some a ∧
+      pull cfg s = .ok ({ s with best := some i }, i, a.pt) ∧
+      Box.Mem domain a.pt ∧ a.pt.length = domain.length ∧
+      ∀ (r : R) (ds : List (Draw α)), RecvDrawsOK cfg { s with best := some i } ds →
+        ∃ s' ds', receive cfg { s with best := some i } r ds = .ok (s', ds') ∧
+          Cover domain s') := by
+  have hC := (goodRun_cover hv hG).1
+  refine ⟨hC, TT.ZM.goodRun_dom hv hG, fun a ha => TT.ZM.arm_in_domain hC ha, fun hneg => ?_⟩
+  obtain ⟨_, i, a, h1, h2, h3⟩ := C11.pull_Cover cfg hC hneg
+  obtain ⟨m1, m2⟩ := TT.ZM.arm_in_domain hC (List.mem_of_getElem? h1)
+  refine ⟨i, a, h1, h2, m1, m2, fun r ds hds => ?_⟩
+  obtain ⟨s', ds', e, hC', _⟩ := C11.receive_Cover cfg h3 rfl h1 r hds
+  exact ⟨s', ds', e, hC'⟩
+
+/-- The point returned by any successful `pull` of a good-run state lies in the domain. -/
+theorem Zooming_pull_in_domain {cfg : ZoomCfg R S} {k : Kind} {domain : Box α}
+    (hv : Box.Valid domain) {s s1 : Zooming α S} {H : List (Nat × R)}
+    (hG : GoodRun cfg k domain s H) {i : Nat} {pt : List α}
+    (hp : pull cfg s = .ok (s1, i, pt)) : Box.Mem domain pt ∧ pt.length = domain.length := by
+  obtain ⟨_, a, ha, rfl⟩ := pull_inv hp
+  exact TT.ZM.arm_in_domain (goodRun_cover hv hG).1 (List.mem_of_getElem? ha)
+
+end zoom
+
+/-! ## 3. POO and GPO (PCT / VPCT), generic in the base learner -/
+section wrappers
+variable {L α R S Pt ρ : Type}
+
+/-- **POO_points_in_domain**: if the base learner only proposes points satisfying `InDom`
+(`OpsInDom`, under its own invariant `LI`), then from every state reachable by the documented
+loop, the point returned by `pull` satisfies `InDom`, and `LI` holds of every learner POO has
+constructed — before and after the following `receive`.  Totality: `POO_total` (cited below). -/
+theorem POO_points_in_domain {ops : LearnerOps L α R Pt ρ} {LI : L → Prop} {InDom : Pt → Prop}
+    (hops : OpsInDom ops LI InDom) (cfg : POOCfg R S ρ) {s : POO L S}
+    (hs : POO.Reach ops cfg s) :
+    POOInv LI s ∧
+    ∀ time ds s1 ds1 i pt, POO.pull ops cfg s time ds = .ok (s1, ds1, i, pt) →
+      InDom pt ∧ POOInv LI s1 ∧
+      ∀ time' r ds' s2 ds2, POO.receive ops cfg s1 time' r ds' = .ok (s2, ds2) → POOInv LI s2 := by
+  obtain ⟨xs, log, hrun⟩ := hs
+  have hI := TT.POO.run_inv hops cfg xs _ _ log (TT.POO.init_inv LI) hrun
+  refine ⟨hI, fun time ds s1 ds1 i pt hp => ?_⟩
+  obtain ⟨h1, h2⟩ := TT.POO.pull_inDom hops cfg hI hp
+  exact ⟨h2, h1, fun time' r ds' s2 ds2 hr => TT.POO.receive_inv hops cfg h1 hr⟩
+
+/-- `get_last_point` of POO (the next proposal of the best learner) returns a point satisfying
+`InDom`, from every reachable state. -/
+theorem POO_lastPoint_in_domain [LT S] [DecidableLT S] {ops : LearnerOps L α R Pt ρ}
+    {LI : L → Prop} {InDom : Pt → Prop} (hops : OpsInDom ops LI InDom) (cfg : POOCfg R S ρ)
+    {s s' : POO L S} (hs : POO.Reach ops cfg s) {i : Nat} {pt : Pt}
+    (h : POO.lastPoint ops s = .ok (s', i, pt)) : InDom pt ∧ POOInv LI s' := by
+  obtain ⟨h1, h2⟩ := TT.POO.lastPoint_inDom hops (POO_points_in_domain hops cfg hs).1 h
+  exact ⟨h2, h1⟩
+
+/-- Totality of POO (C10 `POO_total`), together with the domain property of every round. -/
+theorem POO_total_in_domain {ops : LearnerOps L α R Pt ρ} {LI : L → Prop} {InDom : Pt → Prop}
+    (hops : OpsInDom ops LI InDom) {cfg : POOCfg R S ρ} (hc : cfg.cond 2 2 = true)
+    (htot : OpsTotal ops) (xs : List (RoundIn α R)) :
+    ∃ s' log, POO.run ops cfg (POO.init : POO L S) xs = .ok (s', log) ∧ POOInv LI s' := by
+  obtain ⟨s', log, h⟩ := POO_total hc htot xs
+  exact ⟨s', log, h, TT.POO.run_inv hops cfg xs _ _ log (TT.POO.init_inv LI) h⟩
+
+/-- **GPO_points_in_domain**: along every run of the documented loop, every point returned by
+`pull` (recorded in the log) satisfies `InDom`; `goodx` and `Vx` only ever hold points proposed
+by learners, so the final `pull`s and `get_last_point` return such points too. -/
+theorem GPO_points_in_domain [LT S] [DecidableLT S] {ops : LearnerOps L α R Pt ρ}
+    {LI : L → Prop} {InDom : Pt → Prop} (hops : OpsInDom ops LI InDom) (cfg : GPOCfg R S ρ)
+    {xs : List (RoundIn α R)} {s : GPO L S Pt} {log : List (GPO.Entry R Pt)}
+    (hrun : GPO.run ops cfg GPO.init xs = .ok (s, log)) :
+    GPOInv LI InDom s ∧ (∀ e ∈ log, InDom e.pt) ∧
+    (∀ time ds s1 ds1 pt, GPO.pull ops cfg s time ds = .ok (s1, ds1, pt) → InDom pt) ∧
+    (∀ p, GPO.lastPoint s = .ok p → InDom p) := by
+  obtain ⟨hI, hlog⟩ := TT.GPO.run_inDom hops cfg xs _ _ log (TT.GPO.init_inv LI InDom) hrun
+  exact ⟨hI, hlog, fun time ds s1 ds1 pt hp => (TT.GPO.pull_inDom hops cfg hI hp).2,
+    fun p hp => TT.GPO.lastPoint_inDom hI hp⟩
+
+/-- Totality of GPO (C09 `GPO_total`: `1 ≤ N`, `1 ≤ half`, total base learner), together with
+the domain property. -/
+theorem GPO_total_in_domain [LT S] [DecidableLT S] {ops : LearnerOps L α R Pt ρ}
+    {LI : L → Prop} {InDom : Pt → Prop} (hops : OpsInDom ops LI InDom) {cfg : GPOCfg R S ρ}
+    (hN : 1 ≤ cfg.N) (hh : 1 ≤ cfg.half) (htot : OpsTotal ops) (xs : List (RoundIn α R)) :
+    ∃ s' log, GPO.run ops cfg (GPO.init : GPO L S Pt) xs = .ok (s', log) ∧
+      GPOInv LI InDom s' ∧ ∀ e ∈ log, InDom e.pt := by
+  obtain ⟨s', log, h, _⟩ := GPO_total hN hh htot xs
+  obtain ⟨h1, h2, _⟩ := GPO_points_in_domain hops cfg h
+  exact ⟨s', log, h, h1, h2⟩
+
+end wrappers
+
+/-! ## 4. The recorded exceptions -/
+section exceptions
+variable {L α R S Pt ρ : Type}
+
+/-- POO cannot start when the oracle refuses `N = n = 2` (C10). -/
+theorem POO_start_failure (ops : LearnerOps L α R Pt ρ) (cfg : POOCfg R S ρ)
+    (hc : cfg.cond 2 2 = false) (time : Nat) (ds : List (Draw α)) :
+    POO.pull ops cfg (POO.init : POO L S) time ds = .error .noneDeref :=
+  (PyXAB.POO_start_failure ops cfg hc time ds).1
+
+/-- GPO with `N = 0` or `half_phase_length = 0`: the first `pull` returns `None` (C09). -/
+theorem GPO_degenerate [LT S] [DecidableLT S] {ops : LearnerOps L α R Pt ρ} {cfg : GPOCfg R S ρ}
+    (hops : OpsTotal ops) (h0 : cfg.N = 0 ∨ cfg.half = 0) (time : Nat) (ds : List (Draw α)) :
+    GPO.pull ops cfg (GPO.init : GPO L S Pt) time ds = .error .returnedNone :=
+  PyXAB.GPO_degenerate hops h0 time ds
+
+/-- `get_last_point` of GPO before any validation: `np.argmax([])` raises `ValueError`. -/
+theorem GPO_lastPoint_no_score [LT S] [DecidableLT S] {s : GPO L S Pt} (h : s.V = []) :
+    GPO.lastPoint s = .error .valueError := by
+  simp [GPO.lastPoint, h, MT.argmaxFirst_nil]
+
+/-- `get_last_point` of POO before the first `pull`: `np.argmax([])` raises `ValueError`. -/
+theorem POO_lastPoint_no_score [LT S] [DecidableLT S] (ops : LearnerOps L α R Pt ρ)
+    {s : POO L S} (h : s.V = []) : POO.lastPoint ops s = .error .valueError := by
+  simp [POO.lastPoint, h, MT.argmaxFirst_nil]
+
+/-- `get_last_point` of SequOOL before any round dereferences `max_node = None` (C07). -/
+theorem SequOOL_lastPoint_before_any_round {α S : Type} [Add α] [Sub α] [Mul α] [Div α]
+    [OfNat α 2] [NatCast α] [LinearOrder S] [Inhabited S] (negInf : S) (k : Kind)
+    (domain : Box α) (hmax : Nat) :
+    SequOOL.lastPoint negInf (SequOOL.init k domain hmax : SequOOL α S) = .error .noneDeref :=
+  SQ.C07.lastPoint_init k domain hmax
+
+/-- SOO beyond its depth cap: `pull` sweeps for ever (C08; the model runs out of fuel). -/
+theorem SOO_pull_outOfFuel :
+    (Ex08.stSOO 0 1).P.depth = (Ex08.stSOO 0 1).hmax ∧
+    SOO.pull ⊥ (Ex08.stSOO 0 1) 2 [Ex08.dr 0] = .error .outOfFuel :=
+  Ex08.SOO_pull_outOfFuel_counterexample
+
+/-- StoSOO beyond its budget (`time > n`): the `while` loop of `pull` never advances — the
+Python code hangs, the model reports `outOfFuel` — in EVERY state. -/
+theorem StoSOO_pull_budget_exhausted {α R S : Type} [Add α] [Sub α] [Mul α] [Div α] [OfNat α 2]
+    [NatCast α] [LE S] [DecidableLE S] [Inhabited S] [Inhabited R] (cfg : StoCfg S R)
+    (s : StoSOO α R S) {time : Nat} (ht : cfg.n < time) (ds : List (Draw α)) :
+    StoSOO.pull cfg s time ds = .error .outOfFuel := by
+  have h : ¬ time ≤ cfg.n := by omega
+  simp [StoSOO.pull, StoSOO.loop, h, bind, Except.bind]
+
+end exceptions
+
+/-! ## 5. Non-vacuity: concrete runs over `ℚ` (data: `Lemmas/TT_Example.lean`) -/
+section examples
+open TT.Ex01 TBB.Ex
+
+/-! ### T-HOO, `BinaryPartition` (configuration `cfgH` of `Lemmas/TBB_Example.lean`),
+box `[0,1] × [-1,3]` -/
+
+/-- the hypotheses of `HOO_points_in_domain_det` hold … -/
+example : DrawsOK .binary domQ.length [dq 0] ∧ InputsOK .binary domQ.length inH := by decide
+
+/-- … so the run never raises and all handed-out points lie in the box … -/
+example : ∃ s H, HOO.run cfgH .binary domQ [dq 0] inH = .ok (s, H) ∧ HOO.Inv cfgH s ∧
+    DomInv .binary domQ s.P ∧ H.map (·.2) = inH.map (·.1) ∧ ∀ e ∈ H, PointOK domQ s.P e.1 :=
+  HOO_points_in_domain_det cfgH .binary trivial domQ [dq 0] inH domQ_valid (by decide) (by decide)
+
+/-- … and these are the cells and points of the four rounds (kernel evaluation over `ℚ`). -/
+example : (HOO.run cfgH .binary domQ [dq 0] inH).toOption.map
+      (fun x => x.2.map (fun e => (e.1, ptOf x.1.P e.1))) =
+    some [(2, [3 / 4, 1]), (1, [1 / 4, 1]), (6, [1 / 4, 2]), (4, [7 / 8, 1])] := by
+  decide +kernel
+
+/-! ### T-HOO, `RandomBinaryPartition`: `GoodDraws` is satisfiable, and it is needed -/
+
+/-- `HOO_points_in_domain` applies to a `RandomBinaryPartition` run (root split at `1/3`, the
+pulled cell `[1/3,1] × [-1,3]` split at `1/2`: `TT.Ex01.rGood`). -/
+example : ∃ s H, HOO.run cfgH .randBinary domQ [dr 0 (1 / 3)] [(3, [dr 0 (1 / 2)])] = .ok (s, H) ∧
+    HOO.Inv cfgH s ∧ DomInv .randBinary domQ s.P ∧ H.map (·.2) = [3] ∧
+    ∀ e ∈ H, PointOK domQ s.P e.1 := by
+  refine HOO_points_in_domain cfgH .randBinary domQ [dr 0 (1 / 3)] [(3, [dr 0 (1 / 2)])]
+    domQ_valid (by decide) (by decide) rHead ?_
+  intro s0 ds' h0
+  rw [rS0_eq] at h0
+  cases h0
+  exact rGood
+
+/-- **The hypothesis on the draws is needed**: with the split point `1/4 ∉ [1/3, 1]` (which
+`np.random.uniform(1/3, 1)` cannot produce) the same run creates the "cell" `[1/3, 1/4]`, which
+is not a valid box: `BoxInv` fails. -/
+theorem HOO_bad_draw_counterexample :
+    (HOO.run cfgH .randBinary domQ [dr 0 (1 / 3)] [(3, [dr 0 (1 / 4)])]).toOption.map
+      (fun x => x.1.P.nodes.map (·.box)) =
+    some [[⟨0, 1⟩, ⟨-1, 3⟩], [⟨0, 1 / 3⟩, ⟨-1, 3⟩], [⟨1 / 3, 1⟩, ⟨-1, 3⟩],
+      [⟨1 / 3, 1 / 4⟩, ⟨-1, 3⟩], [⟨1 / 4, 1⟩, ⟨-1, 3⟩]] ∧
+    ¬ Box.Valid ([⟨1 / 3, 1 / 4⟩, ⟨-1, 3⟩] : Box ℚ) := by
+  refine ⟨by decide +kernel, fun h => ?_⟩
+  have := h ⟨1 / 3, 1 / 4⟩ (by simp)
+  have h' : (1 / 3 : ℚ) ≤ 1 / 4 := this
+  norm_num at h'
+
+/-! ### HCT and VHCT, `BinaryPartition` -/
+
+/-- HCT (`variance = false`) and VHCT (`variance = true`) -/
+example (var : Bool) : ∃ s H, HCT.run (cfgC var) .binary domQ [dq 0] inH = .ok (s, H) ∧
+    HCT.Inv (cfgC var) s ∧ DomInv .binary domQ s.P ∧ H.map (·.2) = inH.map (·.1) ∧
+    ∀ e ∈ H, PointOK domQ s.P e.1 :=
+  HCT_points_in_domain_det (cfgC var) .binary trivial domQ [dq 0] inH domQ_valid (by decide)
+    (by decide)
+
+/-! ### SOO, `BinaryPartition` (scores `WithBot ℤ` as in `Props/C08.lean`) -/
+
+example : SW.InputsOK .binary domQ.length inS := by decide
+
+example : ∃ s H, SOO.run ⊥ .binary domQ 10 inS = .ok (s, H) ∧ SOO.Inv ⊥ s ∧
+    DomInv .binary domQ s.P ∧ H.map (·.2) = inS.map (·.2.2) ∧
+    (∀ e ∈ H, PointOK domQ s.P e.1) ∧
+    ∀ v, SOO.lastPoint ⊥ s = .ok v → PointOK domQ s.P v :=
+  SOO_points_in_domain_det ⊥ Ex08.botLe .binary trivial domQ 10 inS domQ_valid (by decide)
+    (by decide)
+
+/-- the cells and points handed out, and the recommendation (cell `2`, reward `7`) -/
+example : (SOO.run ⊥ .binary domQ 10 inS).toOption.map
+      (fun x => (x.2.map (fun e => (e.1, ptOf x.1.P e.1)),
+        (SOO.lastPoint ⊥ x.1).toOption.map (fun v => (v, ptOf x.1.P v)))) =
+    some ([(0, [1 / 2, 1]), (1, [1 / 2, 0]), (2, [1 / 2, 2]), (3, [1 / 2, 3 / 2])],
+      some (2, [1 / 2, 2])) := by
+  decide +kernel
+
+/-! ### DOO, SequOOL and StoSOO, `BinaryPartition` -/
+
+example : ∃ s H, DOO.run (α := ℚ) ⟨⊥, Ex08.sc 1000, ⊥, Ex08.addSc,
+      fun _ h => .ok (Ex08.sc (10 - 2 * (h : Int)))⟩ .binary domQ inS = .ok (s, H) ∧
+    DomInv .binary domQ s.P ∧ (∀ e ∈ H, PointOK domQ s.P e.1) := by
+  obtain ⟨s, H, e, _, hD, _, hp, _⟩ := DOO_points_in_domain_det (α := ℚ)
+    ⟨⊥, Ex08.sc 1000, ⊥, Ex08.addSc, fun _ h => .ok (Ex08.sc (10 - 2 * (h : Int)))⟩
+    Ex08.botLe (fun _ _ _ _ => ⟨_, rfl⟩) .binary trivial domQ inS domQ_valid (by decide)
+  exact ⟨s, H, e, hD, hp⟩
+
+example : ∃ s H, SQ.run ⊥ .binary domQ 4 inQ = .ok (s, H) ∧ SQ.Inv ⊥ s ∧
+    DomInv .binary domQ s.P ∧ H.map (·.2) = inQ.map (·.1) ∧
+    (∀ e ∈ H, PointOK domQ s.P e.1) ∧
+    ∀ v, SequOOL.lastPoint ⊥ s = .ok v → PointOK domQ s.P v :=
+  SequOOL_points_in_domain_det Ex08.botLe .binary trivial domQ 4 (by decide) inQ domQ_valid
+    (by decide)
+
+example : ∃ s H, StoSOO.run Ex08.cfgSto .binary domQ inSto = .ok (s, H) ∧
+    StoSOO.Inv Ex08.cfgSto s ∧ DomInv .binary domQ s.P ∧ H.map (·.2) = inSto.map (·.2.2) ∧
+    (∀ e ∈ H, PointOK domQ s.P e.1) ∧
+    ∀ v, StoSOO.lastPoint Ex08.cfgSto s = .ok v → PointOK domQ s.P v :=
+  StoSOO_points_in_domain_det Ex08.cfgSto Ex08.cfgSto_bot Ex08.cfgSto_top rfl .binary trivial
+    domQ inSto domQ_valid (by decide) (by decide) (by decide)
+
+/-! ### Zooming: the 3-round run of `Lemmas/ZM_Example.lean` -/
+
+example : ZM.Cover ZM.dom01 ZM.st3 ∧ DomInv .binary ZM.dom01 ZM.st3.P ∧
+    ∀ a ∈ ZM.st3.arms, Box.Mem ZM.dom01 a.pt ∧ a.pt.length = ZM.dom01.length :=
+  ⟨(Zooming_points_in_domain ZM.dom01_valid ZM.good3).1,
+    (Zooming_points_in_domain ZM.dom01_valid ZM.good3).2.1,
+    (Zooming_points_in_domain ZM.dom01_valid ZM.good3).2.2.1⟩
+
+/-! ### POO / GPO: a base learner satisfying `OpsInDom` (the recording learner, trivially) -/
+
+example : OpsInDom (recOps ℚ ℚ Nat) (fun _ => True) (fun _ => True) :=
+  ⟨fun _ _ _ _ _ => trivial, fun _ _ _ _ _ _ => ⟨trivial, trivial⟩, fun _ _ _ _ _ _ _ _ => trivial⟩
+
+end examples
+
+end C01
+end PyXAB
